@@ -89,10 +89,10 @@ func ruleComparatorParametricity(r *Report, rule string) {
 		if !ok || fs.Owner != "DocumentMatch" {
 			return nil, "", false
 		}
-		switch fs.Field.Name() {
+		switch canonFieldName(fs.Field) {
 		case "Score", "Sort", "HitNumber", "ID", "IndexInternalID":
 			if b := baseIdent(fs.Sel.X); b != nil {
-				return info.ObjectOf(b), fs.Field.Name(), true
+				return info.ObjectOf(b), canonFieldName(fs.Field), true
 			}
 		}
 		return nil, "", false
